@@ -7,13 +7,14 @@ CHECK = {
     "quick": {"shards": 8, "timeout": 900},
     "thorough": {"shards": 16, "timeout": 3600},
     "required_categories": ["a_smart_rotation", "b_pose_covariance", "b_rank_deficient_covariance",
-                            "b_identity_transform_and_attitude", "c_ls_covariance_float", "c_ls_covariance_double"],
+                            "b_identity_transform_and_attitude", "c_ls_covariance_float", "c_ls_covariance_double",
+                            "c_later_problem_on_reused_solver", "c_path_svd", "c_path_cholesky", "c_path_weighted"],
     "required_oracles": ["a.dRTdAngles_is_matrix_times_vector", "a.R_is_RzRyRx", "b.symmetric", "b.positive_semidefinite",
                          "b.covariance_is_J_C_Jt", "c.covariance_is_v_A_invJtJ_At"],
     "rule": "index mod 3 selects the sub-property: (a) angle triple roll,yaw in [-pi,pi], |pitch| <= pi/2-0.05 incl. zeros, limits "
             "and tiny angles, plus a random vector; (b) pose (position up to 1e3, attitude away from gimbal lock before and after), "
             "rigid transform (any axis, angle up to 3.1 rad, translation up to 1e3), symmetric PSD 6x6 covariance with condition up "
-            "to 1e6 incl. rank-deficient and diagonal ones; (c) full-rank least-squares problem (estimate size 1..8, up to 200 rows, "
+            "to 1e6 incl. rank-deficient and diagonal ones; (c) history of 1..4 full-rank least-squares problems on one solver object (estimate size 1..8, up to 200 rows, stale rows poisoned, SVD / Cholesky / weighted path per problem, "
             "prescribed condition and scale, float/double, Cholesky or SVD path) with a diagonal preconditioner and a data variance; "
             "non-trivial = (a) at least two non-zero angles, (b) non-identity transform and attitude, (c) non-identity preconditioner",
     "level_text": "exploration: 1e4 (quick) / 2e6 (thorough) generated cases per sub-property; the reported derivative matrices "
